@@ -8,6 +8,7 @@ TERMINAL = "('ack', 'nack', 'reject', 'requeue')"
 def register(db):
     db.define("n_terminal(tr)", f"sum([1 for e in tr if e[0] in {TERMINAL}])")
     db.define("n_store(tr)", "sum([1 for e in tr if e[0] == 'store_bucket'])")
+    db.define("acts(tr)", "[e for e in tr if e[0] != 'get_bucket']")     # everything but the argument-bucket fetch
     db.shape("ActorResult", {"exception": "Optional[opaque]"})
 
     db.contract(
@@ -78,31 +79,34 @@ def register(db):
 
     db.contract(
         fn=PROC + "process", serves=["C02", "C13"], clock=["now", "now2", "now3"],
-        ghost_init={"trace": "events", "store_fails": "bool", "eager": "int", "invocations": "int", "last_ret": "opaque"},
+        ghost_init={"trace": "events", "store_fails": "bool", "eager": "int", "invocations": "int", "last_ret": "opaque",
+                    "last_bucket": "Optional[ArgsBucket]"},
         requires=["valid_parameters(parameters)", "parameters.delay.cron is None",
                   "parameters.delay.defer_by is None or us(parameters.delay.defer_by) <= 10**6 * 86400 * 366 * 1000",
                   "parameters.result is None or self._conn.results_bucket_broker is not None",
                   "implies(is_marker(payload), self._conn.args_bucket_broker is not None)"],
         ensures={
             "exactly_one_disposition": "(ghost.eager - old(ghost.eager)) + n_terminal(trace) == 1",
-            "eager_means_hands_off": "implies(ghost.eager == old(ghost.eager) + 1, len(trace) == 0)",
-            "disposition_before_store": "implies(len(trace) == 2, trace[0][0] in ('ack', 'nack', 'requeue') and trace[1][0] == 'store_bucket')",
+            "eager_means_hands_off": "implies(ghost.eager == old(ghost.eager) + 1, len(acts(trace)) == 0)",
+            "disposition_before_store": "implies(len(acts(trace)) == 2, acts(trace)[0][0] in ('ack', 'nack', 'requeue')"
+                                        " and acts(trace)[1][0] == 'store_bucket')",
+            "payload_fetched_first": "implies(n_terminal(trace) + n_store(trace) < len(trace), trace[0][0] == 'get_bucket')",
             "store_iff_enabled": "implies(ghost.eager == old(ghost.eager), n_store(trace) == (0 if parameters.result is None else 1))",
             "stored_under_result_id": "implies(n_store(trace) == 1, trace[len(trace) - 1][1] == parameters.result.id_)",
-            "at_most_two_calls": "len(trace) <= 2",
+            "at_most_two_calls": "len(acts(trace)) <= 2 and len(trace) <= 3",
             "counted": "self._processed == old(self._processed) + 1",
             "invoked_at_most_once": "ghost.invocations <= old(ghost.invocations) + 1",
         },
         raises=[
             # a failing result store (or payload fetch) never changes or undoes the disposition
             Raises("Exception", mode="may", anysub=True, when="flag('store_fails')",
-                   modifies=["self._processed", "ghost.eager", "ghost.invocations", "ghost.last_ret"],
+                   modifies=["self._processed", "ghost.eager", "ghost.invocations", "ghost.last_ret", "ghost.last_bucket"],
                    ensures={"disposition_stands": "(ghost.eager - old(ghost.eager)) + n_terminal(trace) <= 1",
                             "no_partial_store": "n_store(trace) == 0"}),
             Raises("OverflowError", mode="may", when="True", ensures={"nothing": "n_terminal(trace) == 0"},
-                   modifies=["ghost.eager", "ghost.invocations", "ghost.last_ret"]),
+                   modifies=["ghost.eager", "ghost.invocations", "ghost.last_ret", "ghost.last_bucket"]),
         ],
-        modifies=["self._processed", "ghost.eager", "ghost.invocations", "ghost.last_ret"], trace_exact=False,
+        modifies=["self._processed", "ghost.eager", "ghost.invocations", "ghost.last_ret", "ghost.last_bucket"], trace_exact=False,
     )
     db.prop_meta("C02", not_decided=[
         "'keeps processing the other messages' (liveness of the consumer loop) - only the safety part is decided: no "
